@@ -797,7 +797,7 @@ func ruleOvershoot(w *core.World, r *core.Report, c *senderCtx, onlyBarrierKinds
 				res[cons] = v
 			}
 			v.seen++
-			fa, okArgs := c.flushArgsAt(s)
+			fa, okArgs := c.flushArgsOnPath(p, s)
 			if !okArgs {
 				v.bad = "the sender's call does not hand over (wrap, update checkpoint, offset) in a recognised form"
 				return
@@ -1848,7 +1848,7 @@ func ruleTxnFlushWrapped(w *core.World, r *core.Report, c *senderCtx) {
 		}
 		c.sendCalls(p, func(s core.Site, _ bool, _ int) {
 			n++
-			fa, okArgs := c.flushArgsAt(s)
+			fa, okArgs := c.flushArgsOnPath(p, s)
 			if !okArgs || bad != "" {
 				return
 			}
